@@ -135,19 +135,20 @@ def compile_bb(
         else:
             # Otherwise, we have to output a TupleSum: We put all non-linear variables
             # into the branch TupleSum and all linear variables in the normal output
-            # (since they are shared between all successors). This is in line with the
+            # (since they are shared between all successors; a value that is copyable
+            # or droppable may be live in only some of them). This is in line with the
             # ordering on variables which puts linear variables at the end.
             # We don't need to worry about the order of return vars since this isn't
             # a branch to an exit (see assert above).
             branch_port = choose_vars_for_tuple_sum(
                 unit_sum=branch_port,
                 output_vars=[
-                    [v for v in sort_vars(row) if v.ty.droppable]
+                    [v for v in sort_vars(row) if not v.ty.linear]
                     for row in bb.sig.output_rows
                 ],
                 dfg=dfg,
             )
-            outputs = [v for v in first if not v.ty.droppable]
+            outputs = [v for v in first if v.ty.linear]
 
     # If this is *not* a jump to the exit BB, we need to sort the outputs to make the
     # signature consistent with what the next BB expects
@@ -193,7 +194,7 @@ def choose_vars_for_tuple_sum(
     Given `unit_sum: Sum(*(), *(), ...)` and output variable rows `#s1, #s2, ...`,
     constructs a TupleSum value of type `Sum(#s1, #s2, ...)`.
     """
-    assert all(v.ty.droppable for var_row in output_vars for v in var_row)
+    assert all(not v.ty.linear for var_row in output_vars for v in var_row)
     sum_type = ht.Sum(
         [[v.ty.to_hugr(dfg.ctx) for v in var_row] for var_row in output_vars]
     )
@@ -223,7 +224,7 @@ def compare_var(p1: Place, p2: Place) -> int:
     We need to output linear variables at the end, so we do a lexicographic ordering of
     linearity and name.
     """
-    return -1 if (not p1.ty.droppable, str(p1)) < (not p2.ty.droppable, str(p2)) else 1
+    return -1 if (p1.ty.linear, str(p1)) < (p2.ty.linear, str(p2)) else 1
 
 
 def sort_vars(row: Row[Place]) -> list[Place]:
